@@ -125,48 +125,139 @@ Proof.
     inv_ok H. rewrite (IHn _ _ E). cbn [obind]. rewrite (IHr _ _ E0). exact H.
 Qed.
 
-(* a run of properties with more properties appended, under a larger environment *)
-Lemma cv_props_ext ev ev' (Hle : env_le ev ev') path io n ps extra r r' :
-  cv_props ev path io n ps = Ok r -> cv_props ev' path io n (papp ps extra) = Ok r' ->
-  exists a, r' = pres_app r a.
+(* ---- the extension relation on the syntax carries over to what the converter produces *)
+Definition pres_ext (r r' : pres) : Prop :=
+  prefix_of (pr_fields r) (pr_fields r') /\ sub_list msg_ext (pr_msgs r) (pr_msgs r') /\
+  sub_list enum_ext (pr_enums r) (pr_enums r').
+
+Definition core_ext (c c' : fcore) : Prop :=
+  fc_type c' = fc_type c /\ fc_tname c' = fc_tname c /\
+  sub_list msg_ext (fc_msgs c) (fc_msgs c') /\ sub_list enum_ext (fc_enums c) (fc_enums c').
+
+Lemma core_ext_refl c : core_ext c c.
+Proof. repeat split; [apply sub_list_refl, msgs_refl|apply sub_list_refl, enums_refl]. Qed.
+
+Lemma pres_ext_app a a' c c' : pres_ext a a' -> length (pr_fields a) = length (pr_fields a') ->
+  pres_ext c c' -> pres_ext (pres_app a c) (pres_app a' c').
 Proof.
-  intros H H'. destruct (convert_env_le ev ev' Hle) as (_ & Hp & _).
-  rewrite (cv_props_app snake camel screaming), (Hp _ _ _ _ _ H) in H'. cbn [obind] in H'.
-  inv_ok H'. inversion H'. exists a. reflexivity.
+  intros ([t Ht] & M1 & E1) Hl ([u Hu] & M2 & E2). unfold pres_ext, pres_app. cbn [pr_fields pr_msgs pr_enums].
+  assert (t = []) as ->.
+  { rewrite Ht, app_length in Hl. destruct t; [reflexivity|cbn in Hl; lia]. }
+  rewrite app_nil_r in Ht. split; [exists u; rewrite Ht, Hu, app_assoc; reflexivity|].
+  split; apply sub_list_app; assumption.
 Qed.
 
-(* one declared object / oneof *)
-Lemma cv_nested_obj_ext ev ev' (Hle : env_le ev ev') path nm ps extra subs ms es is ms' es' is' :
-  cv_nested ev path (NObject nm ps subs) = Ok (ms, es, is) ->
-  cv_nested ev' path (NObject nm (papp ps extra) subs) = Ok (ms', es', is') ->
-  sub_list msg_ext ms ms' /\ es = [] /\ es' = [].
+Section ExtCore.
+Variables ev ev' : env.
+Hypothesis Hle : env_le ev ev'.
+
+Definition item_rel (f f' : field) : Prop :=
+  forall path dflt c c', cv_item ev path dflt f = Ok c -> cv_item ev' path dflt f' = Ok c' -> core_ext c c'.
+
+Definition field_rel (f f' : field) : Prop :=
+  item_rel f f' /\
+  match f, f' with
+  | FArray it, FArray it' | FMap it, FMap it' => item_rel it it'
+  | FArray _, _ | FMap _, _ => False
+  | _, FArray _ | _, FMap _ => False
+  | _, _ => True
+  end.
+
+Lemma item_rel_refl f : item_rel f f.
 Proof.
-  intros H H'. rewrite (cv_nested_obj snake camel screaming) in *. inv_ok H. inv_ok H'.
-  destruct a0 as [[sm se] si]. destruct a2 as [[sm' se'] si']. inversion H. inversion H'. subst. clear H H'.
-  destruct (cv_props_ext _ _ Hle _ _ _ _ _ _ _ E E1) as [x ->].
-  pose proof (proj2 (nested_env_le _ _ Hle) _ _ _ E0) as E0'. rewrite E0' in E2. inversion E2. subst. clear E2.
-  split; [|split; reflexivity]. apply sl_keep; [|apply sl_nil].
-  cbn [pres_app pr_fields pr_msgs pr_enums]. constructor.
-  - apply prefix_of_app.
-  - rewrite <- app_assoc. apply sub_list_skip_mid; apply msgs_refl.
-  - rewrite <- app_assoc. apply sub_list_skip_mid; apply enums_refl.
+  intros path dflt c c' H H'. destruct (convert_env_le ev ev' Hle) as (Hi & _ & _).
+  rewrite (proj1 (Hi f) _ _ _ H) in H'. inversion H'. subst. apply core_ext_refl.
 Qed.
 
-Lemma cv_nested_oneof_ext ev ev' (Hle : env_le ev ev') path nm ps extra subs ms es is ms' es' is' :
-  cv_nested ev path (NOneof nm ps subs) = Ok (ms, es, is) ->
-  cv_nested ev' path (NOneof nm (papp ps extra) subs) = Ok (ms', es', is') ->
-  sub_list msg_ext ms ms' /\ es = [] /\ es' = [].
+Lemma field_rel_refl f : field_rel f f.
+Proof. split; [apply item_rel_refl|]. destruct f; try exact I; apply item_rel_refl. Qed.
+
+Lemma enum_core_ext name nm pfx opts extra :
+  opts <> [] -> enum_ext (cv_enum name (mkEnum nm pfx opts)) (cv_enum name (mkEnum nm pfx (opts ++ extra))).
 Proof.
-  intros H H'. rewrite (cv_nested_oneof snake camel screaming) in *. inv_ok H. inv_ok H'.
-  destruct a0 as [[sm se] si]. destruct a2 as [[sm' se'] si']. inversion H. inversion H'. subst. clear H H'.
-  destruct (cv_props_ext _ _ Hle _ _ _ _ _ _ _ E E1) as [x ->].
-  pose proof (proj2 (nested_env_le _ _ Hle) _ _ _ E0) as E0'. rewrite E0' in E2. inversion E2. subst. clear E2.
-  split; [|split; reflexivity]. apply sl_keep; [|apply sl_nil].
-  cbn [pres_app pr_fields pr_msgs pr_enums]. constructor.
-  - apply prefix_of_app.
-  - rewrite <- app_assoc. apply sub_list_skip_mid; apply msgs_refl.
-  - rewrite <- app_assoc. apply sub_list_skip_mid; apply enums_refl.
+  intros Hne. destruct opts as [|o0 r]; [contradiction|].
+  unfold J5sConvert.cv_enum. cbn [e_opts e_prefix app].
+  destruct (has_suffix unspecified o0); split; cbn [en_name en_vals]; try reflexivity.
+  - rewrite (number_opts_app snake camel screaming). eexists. rewrite app_comm_cons. reflexivity.
+  - change (o0 :: r ++ extra) with ((o0 :: r) ++ extra). rewrite (number_opts_app snake camel screaming).
+    eexists. rewrite app_comm_cons. reflexivity.
 Qed.
+
+(* one property whose field was extended: the field of the message is unchanged, what is nested
+   for it embeds *)
+Lemma property_rel n rq op f f' path io num a a' :
+  field_rel f f' ->
+  cv_property ev path io num (Property n rq op f) = Ok a ->
+  cv_property ev' path io num (Property n rq op f') = Ok a' ->
+  pres_ext a a' /\ length (pr_fields a) = length (pr_fields a').
+Proof.
+  intros [Hitem Hcont] H H'. rewrite (cv_property_eq snake camel screaming) in H, H'.
+  assert (Hfin : forall c c' lbl (Hc : core_ext c c')
+            (Ha : finish io rq op (snake n) n num c lbl (fc_type c) (fc_tname c) (fc_msgs c) (fc_imports c) = Ok a \/
+                  exists imps, finish io rq op (snake n) n num c lbl (fc_type c) (fc_tname c) (fc_msgs c) imps = Ok a)
+            (Ha' : exists imps', finish io rq op (snake n) n num c' lbl (fc_type c') (fc_tname c') (fc_msgs c') imps' = Ok a'),
+            pres_ext a a' /\ length (pr_fields a) = length (pr_fields a')).
+  { intros c c' lbl (Ht & Hn & Hm & He) Ha [imps' Ha'].
+    assert (Hax : exists imps, finish io rq op (snake n) n num c lbl (fc_type c) (fc_tname c) (fc_msgs c) imps = Ok a)
+      by (destruct Ha as [Ha|Ha]; [eexists; exact Ha|exact Ha]).
+    destruct Hax as [imps Hax]. apply finish_inv in Hax. apply finish_inv in Ha'.
+    destruct Hax as (F1 & M1 & E1). destruct Ha' as (F2 & M2 & E2).
+    unfold pres_ext. rewrite F1, F2, M1, M2, E1, E2, Ht, Hn.
+    split; [|reflexivity]. split; [apply prefix_of_refl|]. split; assumption. }
+  destruct f as [s|rf|nm ps|rf|nm ps|rf|e|it|it]; destruct f' as [s'|rf'|nm' ps'|rf'|nm' ps'|rf'|e'|it'|it']; try contradiction.
+  all: try (inv_ok H; inv_ok H'; eapply (Hfin _ _ _ (Hitem _ _ _ _ E E0)); [left; exact H|eexists; exact H']).
+  - (* array *)
+    inv_ok H. inv_ok H'. eapply (Hfin _ _ _ (Hcont _ _ _ _ E E0)); [right; eexists; exact H|eexists; exact H'].
+  - (* map *)
+    inv_ok H. inv_ok H'. destruct io; [discriminate|].
+    destruct (Hcont _ _ _ _ E E0) as (Ht & Hn & Hm & He).
+    apply finish_inv in H. apply finish_inv in H'. destruct H as (F1 & M1 & E1). destruct H' as (F2 & M2 & E2).
+    unfold pres_ext. rewrite F1, F2, M1, M2, E1, E2.
+    split; [|reflexivity]. split; [apply prefix_of_refl|]. split; [|exact He].
+    apply sub_list_app; [exact Hm|]. apply sl_keep; [|constructor].
+    unfold value_field. rewrite Ht, Hn. apply msg_ext_refl.
+Qed.
+
+Theorem ext_core :
+  (forall f f', field_ext f f' -> field_rel f f') /\
+  (forall ps ps', props_ext ps ps' -> forall path io n r r',
+      cv_props ev path io n ps = Ok r -> cv_props ev' path io n ps' = Ok r' -> pres_ext r r').
+Proof.
+  apply ext_min.
+  - intros f. apply field_rel_refl.
+  - intros nm ps ps' Hps IH. split; [|exact I]. intros path dflt c c' H H'.
+    rewrite (cv_item_obj snake camel screaming) in H, H'. inv_ok H. inv_ok H'. inversion H. inversion H'. subst. clear H H'.
+    destruct (IH _ _ _ _ _ E E0) as (Pf & Pm & Pe). unfold core_ext. cbn [fc_type fc_tname fc_msgs fc_enums].
+    repeat split; [|constructor]. apply sl_keep; [constructor; assumption|constructor].
+  - intros nm ps ps' Hps IH. split; [|exact I]. intros path dflt c c' H H'.
+    rewrite (cv_item_oneof snake camel screaming) in H, H'. inv_ok H. inv_ok H'. inversion H. inversion H'. subst. clear H H'.
+    destruct (IH _ _ _ _ _ E E0) as (Pf & Pm & Pe). unfold core_ext. cbn [fc_type fc_tname fc_msgs fc_enums].
+    repeat split; [|constructor]. apply sl_keep; [constructor; assumption|constructor].
+  - intros nm pfx opts extra Hne. split; [|exact I]. intros path dflt c c' H H'. cbn in H, H'.
+    inversion H. inversion H'. subst. unfold core_ext. cbn [fc_type fc_tname fc_msgs fc_enums e_name].
+    repeat split; [constructor|]. apply sl_keep; [apply enum_core_ext; exact Hne|constructor].
+  - intros it it' Hit [IH _]. split; [|exact IH]. intros path dflt c c' H. cbn in H. discriminate.
+  - intros it it' Hit [IH _]. split; [|exact IH]. intros path dflt c c' H. cbn in H. discriminate.
+  - intros extra path io n r r' H _. cbn in H. inversion H. subst. unfold pres_ext. cbn.
+    split; [exists (pr_fields r'); reflexivity|]. split; constructor.
+  - intros n rq op f f' ps ps' Hf IHf Hps IHps path io num r r' H H'.
+    rewrite (cv_props_cons snake camel screaming) in H, H'. inv_ok H. inv_ok H'. inversion H. inversion H'. subst. clear H H'.
+    destruct (property_rel _ _ _ _ _ _ _ _ _ _ IHf E E1) as [Pa Hl].
+    apply pres_ext_app; [exact Pa|exact Hl|eapply IHps; eassumption].
+Qed.
+
+End ExtCore.
+
+Lemma props_ext_refl : (forall f, field_ext f f) /\ (forall ps, props_ext ps ps).
+Proof.
+  split; [intros f; apply fe_refl|]. induction ps as [|p r IH]; [constructor|]. destruct p. constructor; [apply fe_refl|exact IH].
+Qed.
+
+Lemma props_ext_papp_l virt ps ps' : props_ext ps ps' -> props_ext (papp virt ps) (papp virt ps').
+Proof. intros H. induction virt as [|p r IH]; cbn; [exact H|]. destruct p. constructor; [apply fe_refl|exact IH]. Qed.
+
+Lemma props_ext_snoc ps extra : props_ext ps (papp ps extra).
+Proof. induction ps as [|p r IH]; cbn; [constructor|]. destruct p. constructor; [apply fe_refl|exact IH]. Qed.
 
 (* enum options appended *)
 Lemma cv_enum_ext name nm pfx opts extra :
@@ -180,24 +271,77 @@ Proof.
     eexists. rewrite app_comm_cons. reflexivity.
 Qed.
 
+(* declared objects / oneofs / enums with their nested declarations *)
+Theorem nested_ext_core ev ev' (Hle : env_le ev ev') :
+  (forall n n', nested_ext n n' -> forall path ms es is ms' es' is',
+     cv_nested ev path n = Ok (ms, es, is) -> cv_nested ev' path n' = Ok (ms', es', is') ->
+     sub_list msg_ext ms ms' /\ sub_list enum_ext es es') /\
+  (forall ns ns', nesteds_ext ns ns' -> forall path ms es is ms' es' is',
+     cv_nesteds ev path ns = Ok (ms, es, is) -> cv_nesteds ev' path ns' = Ok (ms', es', is') ->
+     sub_list msg_ext ms ms' /\ sub_list enum_ext es es').
+Proof.
+  apply next_min.
+  - intros n path ms es is ms' es' is' H H'.
+    rewrite (proj1 (nested_env_le _ _ Hle) _ _ _ H) in H'. inversion H'. subst.
+    split; [apply sub_list_refl, msgs_refl|apply sub_list_refl, enums_refl].
+  - intros nm ps ps' subs subs' Hps Hsubs IH path ms es is ms' es' is' H H'.
+    rewrite (cv_nested_obj snake camel screaming) in *. inv_ok H. inv_ok H'.
+    destruct a0 as [[sm se] si]. destruct a2 as [[sm' se'] si']. inversion H. inversion H'. subst. clear H H'.
+    destruct (proj2 (ext_core ev ev' Hle) _ _ Hps _ _ _ _ _ E E1) as (Pf & Pm & Pe).
+    destruct (IH _ _ _ _ _ _ _ E0 E2) as [Sm Se].
+    split; [|constructor]. apply sl_keep; [|apply sl_nil]. constructor; [exact Pf| |]; apply sub_list_app; assumption.
+  - intros nm ps ps' subs subs' Hps Hsubs IH path ms es is ms' es' is' H H'.
+    rewrite (cv_nested_oneof snake camel screaming) in *. inv_ok H. inv_ok H'.
+    destruct a0 as [[sm se] si]. destruct a2 as [[sm' se'] si']. inversion H. inversion H'. subst. clear H H'.
+    destruct (proj2 (ext_core ev ev' Hle) _ _ Hps _ _ _ _ _ E E1) as (Pf & Pm & Pe).
+    destruct (IH _ _ _ _ _ _ _ E0 E2) as [Sm Se].
+    split; [|constructor]. apply sl_keep; [|apply sl_nil]. constructor; [exact Pf| |]; apply sub_list_app; assumption.
+  - intros nm pfx opts extra Hne path ms es is ms' es' is' H H'. cbn in H, H'. inversion H. inversion H'. subst.
+    split; [constructor|]. apply sl_keep; [apply cv_enum_ext; exact Hne|constructor].
+  - intros extra path ms es is ms' es' is' H _. cbn in H. inversion H. split; constructor.
+  - intros n n' r r' Hn IHn Hr IHr path ms es is ms' es' is' H H'.
+    rewrite (cv_nesteds_cons snake camel screaming) in *. inv_ok H. inv_ok H'.
+    destruct a as [[am ae] ai]. destruct a0 as [[cm ce] ci]. destruct a1 as [[am' ae'] ai']. destruct a2 as [[cm' ce'] ci'].
+    inversion H. inversion H'. subst. clear H H'.
+    destruct (IHn _ _ _ _ _ _ _ E E1) as [A1 A2]. destruct (IHr _ _ _ _ _ _ _ E0 E2) as [B1 B2].
+    split; apply sub_list_app; assumption.
+Qed.
+
+(* one declared object / oneof *)
+Lemma cv_nested_obj_ext ev ev' (Hle : env_le ev ev') path nm ps ps' subs subs' ms es is ms' es' is' :
+  props_ext ps ps' -> nesteds_ext subs subs' ->
+  cv_nested ev path (NObject nm ps subs) = Ok (ms, es, is) ->
+  cv_nested ev' path (NObject nm ps' subs') = Ok (ms', es', is') ->
+  sub_list msg_ext ms ms' /\ es = [] /\ es' = [].
+Proof.
+  intros Hps Hsubs H H'.
+  destruct (proj1 (nested_ext_core ev ev' Hle) _ _ (ne_obj nm _ _ _ _ Hps Hsubs) _ _ _ _ _ _ _ H H') as [S _].
+  split; [exact S|]. rewrite (cv_nested_obj snake camel screaming) in H, H'. inv_ok H. inv_ok H'.
+  destruct a0 as [[sm se] si]. destruct a2 as [[sm' se'] si']. inversion H. inversion H'. split; reflexivity.
+Qed.
+
+Lemma cv_nested_oneof_ext ev ev' (Hle : env_le ev ev') path nm ps ps' subs subs' ms es is ms' es' is' :
+  props_ext ps ps' -> nesteds_ext subs subs' ->
+  cv_nested ev path (NOneof nm ps subs) = Ok (ms, es, is) ->
+  cv_nested ev' path (NOneof nm ps' subs') = Ok (ms', es', is') ->
+  sub_list msg_ext ms ms' /\ es = [] /\ es' = [].
+Proof.
+  intros Hps Hsubs H H'.
+  destruct (proj1 (nested_ext_core ev ev' Hle) _ _ (ne_oneof nm _ _ _ _ Hps Hsubs) _ _ _ _ _ _ _ H H') as [S _].
+  split; [exact S|]. rewrite (cv_nested_oneof snake camel screaming) in H, H'. inv_ok H. inv_ok H'.
+  destruct a0 as [[sm se] si]. destruct a2 as [[sm' se'] si']. inversion H. inversion H'. split; reflexivity.
+Qed.
+
 (* a request / response / topic message *)
-Lemma cv_virtual_ext ev ev' (Hle : env_le ev ev') name virt ps extra m is m' is' :
+Lemma cv_virtual_ext ev ev' (Hle : env_le ev ev') name virt ps ps' m is m' is' :
+  props_ext ps ps' ->
   cv_virtual ev name virt ps = Ok (m, is) ->
-  cv_virtual ev' name virt (papp ps extra) = Ok (m', is') ->
+  cv_virtual ev' name virt ps' = Ok (m', is') ->
   msg_ext m m'.
 Proof.
-  unfold J5sConvert.cv_virtual. intros H H'. inv_ok H. inv_ok H'. inversion H. inversion H'. subst. clear H H'.
-  assert (Hpa : papp virt (papp ps extra) = papp (papp virt ps) extra).
-  { clear. induction virt as [|p r IH]; cbn; [reflexivity|]. rewrite IH. reflexivity. }
-  rewrite Hpa in E0. destruct (cv_props_ext _ _ Hle _ _ _ _ _ _ _ E E0) as [x ->].
-  cbn [pres_app pr_fields pr_msgs pr_enums]. constructor.
-  - apply prefix_of_app.
-  - replace (pr_msgs a) with (pr_msgs a ++ []) at 1 by apply app_nil_r.
-    replace (pr_msgs a ++ pr_msgs x) with (pr_msgs a ++ pr_msgs x ++ []) by (rewrite app_nil_r; reflexivity).
-    apply sub_list_skip_mid; [apply msgs_refl|constructor].
-  - replace (pr_enums a) with (pr_enums a ++ []) at 1 by apply app_nil_r.
-    replace (pr_enums a ++ pr_enums x) with (pr_enums a ++ pr_enums x ++ []) by (rewrite app_nil_r; reflexivity).
-    apply sub_list_skip_mid; [apply enums_refl|constructor].
+  unfold J5sConvert.cv_virtual. intros Hps H H'. inv_ok H. inv_ok H'. inversion H. inversion H'. subst. clear H H'.
+  destruct (proj2 (ext_core ev ev' Hle) _ _ (props_ext_papp_l virt _ _ Hps) _ _ _ _ _ E E0) as (Pf & Pm & Pe).
+  constructor; assumption.
 Qed.
 
 (* ------------------------------------------------------------------ services *)
@@ -207,25 +351,26 @@ Notation cv_service := (cv_service snake camel screaming).
 Notation http_rule := (http_rule snake).
 Notation rewrite_segs := (rewrite_segs snake).
 
-Lemma has_prop_papp nm ps extra : has_prop nm ps = true -> has_prop nm (papp ps extra) = true.
+Lemma has_prop_ext nm ps ps' : props_ext ps ps' -> has_prop nm ps = true -> has_prop nm ps' = true.
 Proof.
-  induction ps as [|p r IH]; cbn; [discriminate|]. intros H. apply orb_true_iff in H.
-  destruct H as [H|H]; [rewrite H; reflexivity|]. rewrite (IH H). apply orb_true_r.
+  intros H. induction H as [extra|n rq op f f' r r' Hf Hr IH]; cbn; [discriminate|].
+  intros Hp. apply orb_true_iff in Hp. destruct Hp as [Hp|Hp]; [rewrite Hp; reflexivity|].
+  rewrite (IH Hp). apply orb_true_r.
 Qed.
 
-Lemma rewrite_segs_ext req extra segs l :
-  rewrite_segs req segs = Ok l -> rewrite_segs (papp req extra) segs = Ok l.
+Lemma rewrite_segs_ext req req' segs l :
+  props_ext req req' -> rewrite_segs req segs = Ok l -> rewrite_segs req' segs = Ok l.
 Proof.
-  revert l. induction segs as [|s r IH]; intros l H; cbn in *; [exact H|].
+  intros Hr. revert l. induction segs as [|s r IH]; intros l H; cbn in *; [exact H|].
   inv_ok H. rewrite (IH _ E). cbn [obind]. destruct s as [|c nm]; [exact H|].
   destruct (c =? colon); [|exact H].
-  destruct (has_prop nm req) eqn:Hp; [|discriminate]. rewrite (has_prop_papp _ _ _ Hp). exact H.
+  destruct (has_prop nm req) eqn:Hp; [|discriminate]. rewrite (has_prop_ext _ _ _ Hr Hp). exact H.
 Qed.
 
 Lemma http_rule_ext base m m' h : method_ext m m' -> http_rule base m = Ok h -> http_rule base m' = Ok h.
 Proof.
-  intros (Hn & Hv & Hp & [extra Hr] & _) H. unfold J5sConvert.http_rule in *. rewrite Hv, Hp, Hr.
-  inv_ok H. rewrite (rewrite_segs_ext _ _ _ _ E). exact H.
+  intros (Hn & Hv & Hp & Hr & _) H. unfold J5sConvert.http_rule in *. rewrite Hv, Hp.
+  inv_ok H. rewrite (rewrite_segs_ext _ _ _ _ Hr E). exact H.
 Qed.
 
 Lemma forall2_sub_list {A} (R : A -> A -> Prop) l l' : Forall2 R l l' -> sub_list R l l'.
@@ -236,17 +381,16 @@ Lemma cv_method_ext ev ev' (Hle : env_le ev ev') base m m' ms d is ms' d' is' :
   cv_method ev base m = Ok (ms, d, is) -> cv_method ev' base m' = Ok (ms', d', is') ->
   sub_list msg_ext ms ms' /\ d' = d.
 Proof.
-  intros Hext H H'. pose proof Hext as (Hn & Hv & Hp & [extra Hr] & Hresp).
-  unfold J5sConvert.cv_method in *. rewrite Hn, Hr in H'. inv_ok H. inv_ok H'.
+  intros Hext H H'. pose proof Hext as (Hn & Hv & Hp & Hr & Hresp).
+  unfold J5sConvert.cv_method in *. rewrite Hn in H'. inv_ok H. inv_ok H'.
   destruct a as [rq rqi]. destruct a2 as [rq' rqi'].
-  pose proof (cv_virtual_ext _ _ Hle _ _ _ _ _ _ _ _ E E2) as Hrq.
+  pose proof (cv_virtual_ext _ _ Hle _ _ _ _ _ _ _ _ Hr E E2) as Hrq.
   rewrite (http_rule_ext _ _ _ _ Hext E1) in E4. inversion E4. subst a4. clear E4.
   destruct (m_response m) as [rs|] eqn:Ers; destruct (m_response m') as [rs'|] eqn:Ers'; try contradiction.
-  - destruct Hresp as [extra2 ->].
-    apply obind_ok in E0. destruct E0 as ([rm rmi] & Erm & E0).
+  - apply obind_ok in E0. destruct E0 as ([rm rmi] & Erm & E0).
     apply obind_ok in E3. destruct E3 as ([rm' rmi'] & Erm' & E3).
     inversion E0. inversion E3. subst a0 a3. clear E0 E3.
-    pose proof (cv_virtual_ext _ _ Hle _ _ _ _ _ _ _ _ Erm Erm') as Hrs.
+    pose proof (cv_virtual_ext _ _ Hle _ _ _ _ _ _ _ _ Hresp Erm Erm') as Hrs.
     inversion H. inversion H'. subst. cbn [fst snd]. split; [|reflexivity].
     apply sl_keep; [exact Hrq|]. apply sl_keep; [exact Hrs|apply sl_nil].
   - inversion E0. inversion E3. subst a0 a3. inversion H. inversion H'. subst. cbn [fst snd]. split; [|reflexivity].
@@ -293,7 +437,7 @@ Lemma cv_tmsgs_ext ev ev' (Hle : env_le ev ev') tn single virt l l' :
 Proof.
   intros HF. induction HF as [|t t' r r' Ht Hr IH]; intros ms ds is ms' ds' is' H H'.
   - cbn in H, H'. inversion H. inversion H'. subst. split; [constructor|reflexivity].
-  - destruct Ht as [Hn [extra Hf]]. cbn [J5sConvert.cv_tmsgs] in H, H'. rewrite Hn, Hf in H'.
+  - destruct Ht as [Hn Hf]. cbn [J5sConvert.cv_tmsgs] in H, H'. rewrite Hn in H'.
     apply obind_ok in H. destruct H as (mn & Emn & H).
     apply obind_ok in H'. destruct H' as (mn' & Emn' & H').
     rewrite Emn in Emn'. inversion Emn'. subst mn'. clear Emn'.
@@ -302,7 +446,7 @@ Proof.
     apply obind_ok in H. destruct H as ([[cm cd] ci] & Er & H).
     apply obind_ok in H'. destruct H' as ([[cm' cd'] ci'] & Er' & H').
     inversion H. inversion H'. subst. clear H H'. cbn [fst snd].
-    pose proof (cv_virtual_ext _ _ Hle _ _ _ _ _ _ _ _ Ev Ev') as Hm.
+    pose proof (cv_virtual_ext _ _ Hle _ _ _ _ _ _ _ _ Hf Ev Ev') as Hm.
     destruct (IH _ _ _ _ _ _ Er Er') as [S ->].
     split; [apply sl_keep; assumption|reflexivity].
 Qed.
@@ -340,10 +484,10 @@ Proof.
     edestruct accept_topic_ext as [S2 Q2]; [exact Hle|exact HF2|exact Ec|exact Ec'|]. subst.
     split; [apply sub_list_app; assumption|reflexivity].
   - eapply accept_topic_ext; [exact Hle| |exact H|exact H'].
-    constructor; [|constructor]. destruct Hm as [Hn [extra Hf]]. unfold default_tm_name.
+    constructor; [|constructor]. destruct Hm as [Hn Hf]. unfold default_tm_name.
     rewrite Hn. destruct (tm_name m) as [x|] eqn:Em.
-    + split; [rewrite Hn, Em; reflexivity|exists extra; exact Hf].
-    + split; [reflexivity|cbn [tm_fields]; exists extra; exact Hf].
+    + split; [rewrite Hn, Em; reflexivity|exact Hf].
+    + split; [reflexivity|cbn [tm_fields]; exact Hf].
   - eapply accept_topic_ext; [exact Hle| |exact H|exact H']. constructor; [exact Hm|constructor].
 Qed.
 
@@ -426,15 +570,15 @@ Proof.
   intros HF. induction HF as [|e e' r r' He Hr IH]; intros m s t m' s' t' m1 s1 t1 m1' s1' t1' Hm Hs Ht H H'.
   - cbn in H, H'. inversion H. inversion H'. subst. auto.
   - cbn [J5sConvert.cv_elements] in H, H'.
-    destruct He as [nm ps extra subs|nm ps extra subs|en|nm pfx opts extra Hne|nm base ms ms' HFm|tp tp' Htp].
+    destruct He as [nm ps ps' subs subs' Hps Hsubs|nm ps ps' subs subs' Hps Hsubs|en|nm pfx opts extra Hne|nm base ms ms' HFm|tp tp' Htp].
     + apply obind_ok in H. destruct H as ([[ms es] is] & E & H).
       apply obind_ok in H'. destruct H' as ([[ms' es'] is'] & E' & H').
-      destruct (cv_nested_obj_ext _ _ Hle _ _ _ _ _ _ _ _ _ _ _ E E') as (S & -> & ->).
+      destruct (cv_nested_obj_ext _ _ Hle _ _ _ _ _ _ _ _ _ _ _ _ Hps Hsubs E E') as (S & -> & ->).
       eapply IH; [| | |exact H|exact H']; try assumption.
       apply facc_ext_add; try assumption; constructor.
     + apply obind_ok in H. destruct H as ([[ms es] is] & E & H).
       apply obind_ok in H'. destruct H' as ([[ms' es'] is'] & E' & H').
-      destruct (cv_nested_oneof_ext _ _ Hle _ _ _ _ _ _ _ _ _ _ _ E E') as (S & -> & ->).
+      destruct (cv_nested_oneof_ext _ _ Hle _ _ _ _ _ _ _ _ _ _ _ _ Hps Hsubs E E') as (S & -> & ->).
       eapply IH; [| | |exact H|exact H']; try assumption.
       apply facc_ext_add; try assumption; constructor.
     + eapply IH; [| | |exact H|exact H']; try assumption.
@@ -502,26 +646,68 @@ Proof. induction ps as [|p r IH]; cbn; [reflexivity|]. rewrite IH. reflexivity. 
 Lemma papp_assoc x y z : papp (papp x y) z = papp x (papp y z).
 Proof. induction x as [|p r IH]; cbn; [reflexivity|]. rewrite IH. reflexivity. Qed.
 
+Theorem props_ext_trans :
+  (forall a c, field_ext a c -> forall d, field_ext c d -> field_ext a d) /\
+  (forall a c, props_ext a c -> forall d, props_ext c d -> props_ext a d).
+Proof.
+  apply ext_min.
+  - intros f d H. exact H.
+  - intros nm ps ps' Hps IH d H. inversion H; subst; [constructor; exact Hps|constructor; apply IH; assumption].
+  - intros nm ps ps' Hps IH d H. inversion H; subst; [constructor; exact Hps|constructor; apply IH; assumption].
+  - intros nm pfx opts extra Hne d H. inversion H as [| | |nm' pfx' opts' extra' Hne' E1 E2| |]; subst.
+    + constructor. exact Hne.
+    + rewrite <- app_assoc. constructor. exact Hne.
+  - intros it it' Hit IH d H. inversion H; subst; [constructor; exact Hit|constructor; apply IH; assumption].
+  - intros it it' Hit IH d H. inversion H; subst; [constructor; exact Hit|constructor; apply IH; assumption].
+  - intros extra d _. constructor.
+  - intros n rq op f f' r r' Hf IHf Hr IHr d H. inversion H; subst. constructor; [apply IHf; assumption|apply IHr; assumption].
+Qed.
+
+Theorem nesteds_ext_trans :
+  (forall a c, nested_ext a c -> forall d, nested_ext c d -> nested_ext a d) /\
+  (forall a c, nesteds_ext a c -> forall d, nesteds_ext c d -> nesteds_ext a d).
+Proof.
+  apply next_min.
+  - intros n d H. exact H.
+  - intros nm ps ps' subs subs' Hps Hs IH d H. inversion H; subst.
+    + constructor; assumption.
+    + constructor; [eapply (proj2 props_ext_trans); eassumption|apply IH; assumption].
+  - intros nm ps ps' subs subs' Hps Hs IH d H. inversion H; subst.
+    + constructor; assumption.
+    + constructor; [eapply (proj2 props_ext_trans); eassumption|apply IH; assumption].
+  - intros nm pfx opts extra Hne d H. inversion H as [| | |nm' pfx' opts' extra' Hne' E1 E2]; subst.
+    + constructor. exact Hne.
+    + rewrite <- app_assoc. constructor. exact Hne.
+  - intros extra d _. constructor.
+  - intros n n' r r' Hn IHn Hr IHr d H. inversion H; subst. constructor; [apply IHn; assumption|apply IHr; assumption].
+Qed.
+
+Lemma nesteds_ext_refl ns : nesteds_ext ns ns.
+Proof. induction ns as [|n r IH]; constructor; [apply ne_refl|exact IH]. Qed.
+
+Lemma nesteds_ext_napp ns extra : nesteds_ext ns (napp ns extra).
+Proof. induction ns as [|n r IH]; cbn; constructor; [apply ne_refl|exact IH]. Qed.
+
 Lemma method_ext_refl m : method_ext m m.
 Proof.
-  repeat split; try reflexivity; [exists PNil; rewrite papp_nil_r; reflexivity|].
-  destruct (m_response m); [exists PNil; rewrite papp_nil_r; reflexivity|exact I].
+  repeat split; try reflexivity; [apply props_ext_refl|].
+  destruct (m_response m); [apply props_ext_refl|exact I].
 Qed.
 
 Lemma method_ext_trans a c d : method_ext a c -> method_ext c d -> method_ext a d.
 Proof.
-  intros (A1 & A2 & A3 & [x Ax] & A5) (B1 & B2 & B3 & [y By] & B5).
+  intros (A1 & A2 & A3 & A4 & A5) (B1 & B2 & B3 & B4 & B5).
   repeat split; try congruence.
-  - exists (papp x y). rewrite By, Ax, papp_assoc. reflexivity.
+  - eapply (proj2 props_ext_trans); eassumption.
   - destruct (m_response a), (m_response c), (m_response d); try contradiction; try exact I.
-    destruct A5 as [u ->]. destruct B5 as [v ->]. exists (papp u v). apply papp_assoc.
+    eapply (proj2 props_ext_trans); eassumption.
 Qed.
 
 Lemma tmsg_ext_refl t : tmsg_ext t t.
-Proof. split; [reflexivity|exists PNil; rewrite papp_nil_r; reflexivity]. Qed.
+Proof. split; [reflexivity|apply props_ext_refl]. Qed.
 Lemma tmsg_ext_trans a c d : tmsg_ext a c -> tmsg_ext c d -> tmsg_ext a d.
 Proof.
-  intros [A1 [x Ax]] [B1 [y By]]. split; [congruence|]. exists (papp x y). rewrite By, Ax, papp_assoc. reflexivity.
+  intros [A1 A2] [B1 B2]. split; [congruence|]. eapply (proj2 props_ext_trans); eassumption.
 Qed.
 
 Lemma forall2_refl {A} (R : A -> A -> Prop) l : (forall a, R a a) -> Forall2 R l l.
@@ -546,8 +732,8 @@ Qed.
 Lemma element_ext_refl e : element_ext e e.
 Proof.
   destruct e as [nm ps subs|nm ps subs|en|[nm base ms]|t].
-  - rewrite <- (papp_nil_r ps) at 2. constructor.
-  - rewrite <- (papp_nil_r ps) at 2. constructor.
+  - constructor; [apply props_ext_refl|apply nesteds_ext_refl].
+  - constructor; [apply props_ext_refl|apply nesteds_ext_refl].
   - constructor.
   - constructor. apply forall2_refl. apply method_ext_refl.
   - constructor. apply topic_ext_refl.
@@ -555,9 +741,9 @@ Qed.
 
 Lemma element_ext_trans a c d : element_ext a c -> element_ext c d -> element_ext a d.
 Proof.
-  intros H H'. destruct H as [nm ps x subs|nm ps x subs|en|nm pfx opts x Hne|nm base ms ms' HF|t t' Ht].
-  - inversion H'; subst. rewrite papp_assoc. constructor.
-  - inversion H'; subst. rewrite papp_assoc. constructor.
+  intros H H'. destruct H as [nm ps ps' subs subs' Hps Hs|nm ps ps' subs subs' Hps Hs|en|nm pfx opts x Hne|nm base ms ms' HF|t t' Ht].
+  - inversion H'; subst. constructor; [eapply (proj2 props_ext_trans); eassumption|eapply (proj2 nesteds_ext_trans); eassumption].
+  - inversion H'; subst. constructor; [eapply (proj2 props_ext_trans); eassumption|eapply (proj2 nesteds_ext_trans); eassumption].
   - exact H'.
   - inversion H' as [| |en' E1 E2|nm' pfx' opts' y Hne' E1 E2| |]; subst.
     + constructor. exact Hne.
@@ -600,27 +786,104 @@ Definition edit_ok (e : edit) (f : jfile) : Prop :=
   | _ => True
   end.
 
+Lemma enum_snoc_ext e o : field_ext (FEnumInline e) (FEnumInline (enum_snoc e o)) /\ nested_ext (NEnum e) (NEnum (enum_snoc e o)).
+Proof.
+  destruct e as [nm pfx opts]. unfold enum_snoc. cbn [e_opts e_name e_prefix].
+  destruct opts as [|o0 r]; [split; constructor|]. split; constructor; discriminate.
+Qed.
+
+Lemma in_field_ext onmsg onenum :
+  (forall ps, props_ext ps (onmsg ps)) -> (forall e, field_ext (FEnumInline e) (FEnumInline (onenum e))) ->
+  forall f, field_ext f (in_field onmsg onenum f).
+Proof.
+  intros Hg He f. induction f; cbn [in_field]; try apply fe_refl.
+  - constructor. apply Hg.
+  - constructor. apply Hg.
+  - apply He.
+  - constructor. assumption.
+  - constructor. assumption.
+Qed.
+
+Lemma in_nested_ext onmsg onenum :
+  (forall ps subs, props_ext ps (fst (onmsg ps subs)) /\ nesteds_ext subs (snd (onmsg ps subs))) ->
+  (forall e, nested_ext (NEnum e) (NEnum (onenum e))) ->
+  forall n, nested_ext n (in_nested onmsg onenum n).
+Proof.
+  intros Hg He n. destruct n as [nm ps subs|nm ps subs|e]; cbn [in_nested].
+  - destruct (Hg ps subs) as [A B]. destruct (onmsg ps subs). constructor; assumption.
+  - destruct (Hg ps subs) as [A B]. destruct (onmsg ps subs). constructor; assumption.
+  - apply He.
+Qed.
+
+Lemma update_prop_ext g : (forall f, field_ext f (g f)) -> forall ps i, props_ext ps (update_prop i g ps).
+Proof.
+  intros Hg ps. induction ps as [|[n rq op f] r IH]; intros i; destruct i; cbn [update_prop]; try constructor;
+    try apply props_ext_refl; try apply Hg; try apply IH.
+Qed.
+
+Lemma update_nested_ext g : (forall n, nested_ext n (g n)) -> forall ns k, nesteds_ext ns (update_nested k g ns).
+Proof.
+  intros Hg ns. induction ns as [|n r IH]; intros k; destruct k; cbn [update_nested]; try constructor;
+    try apply nesteds_ext_refl; try apply ne_refl; try apply Hg; try apply IH.
+Qed.
+
+(* appending at an address inside a message - into inline types and nested declarations, to any
+   depth - is an extension *)
+Lemma apply_at_ext a path : forall ps subs,
+  props_ext ps (fst (apply_at path a ps subs)) /\ nesteds_ext subs (snd (apply_at path a ps subs)).
+Proof.
+  induction path as [|st rest IH]; intros ps subs.
+  - cbn [apply_at]. destruct a; cbn [fst snd]; split;
+      try apply props_ext_refl; try apply nesteds_ext_refl; [apply props_ext_snoc|apply nesteds_ext_napp].
+  - destruct st as [i|k]; cbn [apply_at fst snd]; split;
+      try apply props_ext_refl; try apply nesteds_ext_refl.
+    + apply update_prop_ext. apply in_field_ext; [intros q; apply IH|].
+      intros e. destruct rest; [destruct a; try apply fe_refl; apply enum_snoc_ext|apply fe_refl].
+    + apply update_nested_ext. apply in_nested_ext; [exact IH|].
+      intros e. destruct rest; [destruct a; try apply ne_refl; apply enum_snoc_ext|apply ne_refl].
+Qed.
+
+Lemma apply_props_ext a path ps : props_ext ps (apply_props path a ps).
+Proof. apply apply_at_ext. Qed.
+
 Lemma edit_element_ext e el :
   (match e, el with EAppendOption _ _ _, EEnum en => e_opts en <> [] | _, _ => True end) ->
   element_ext el (edit_element e el).
 Proof.
-  intros Hok. destruct e as [fi k p|fi k o|fi d|fi k mi p|fi k mi p|fi k mi p]; destruct el as [nm ps subs|nm ps subs|en|[nm base ms]|t];
+  intros Hok. destruct e as [fi k p|fi k o|fi d|fi k mi p|fi k mi p|fi k mi p|fi k rt path act].
+  7: { destruct rt as [|mi|mi|reply mi]; destruct el as [nm ps subs|nm ps subs|en|[nm base ms]|t];
+         cbn [edit_element]; try apply element_ext_refl.
+       - destruct (apply_at_ext act path ps subs) as [A B]. destruct (apply_at path act ps subs). constructor; assumption.
+       - destruct (apply_at_ext act path ps subs) as [A B]. destruct (apply_at path act ps subs). constructor; assumption.
+       - constructor. cbn [sv_methods]. apply forall2_update_nth; [apply method_ext_refl|].
+         intros m. repeat split; try reflexivity; cbn.
+         + apply apply_props_ext.
+         + destruct (m_response m); [apply props_ext_refl|exact I].
+       - constructor. cbn [sv_methods]. apply forall2_update_nth; [apply method_ext_refl|].
+         intros m. repeat split; try reflexivity; cbn.
+         + apply props_ext_refl.
+         + destruct (m_response m); [apply apply_props_ext|exact I].
+       - constructor. destruct t as [n ms|n rq rp|n en m|n en m]; [|destruct reply| |]; constructor;
+           try (apply forall2_update_nth; [apply tmsg_ext_refl|]; intros x; split; [reflexivity|apply apply_props_ext]);
+           try (apply forall2_refl; apply tmsg_ext_refl);
+           try (split; [reflexivity|apply apply_props_ext]). }
+  all: destruct el as [nm ps subs|nm ps subs|en|[nm base ms]|t];
     cbn [edit_element]; try apply element_ext_refl.
-  - constructor.
-  - constructor.
+  - constructor; [apply props_ext_snoc|apply nesteds_ext_refl].
+  - constructor; [apply props_ext_snoc|apply nesteds_ext_refl].
   - destruct en as [n pf os]. cbn [e_name e_prefix e_opts] in *. constructor. exact Hok.
   - constructor. cbn [sv_methods]. apply forall2_update_nth; [apply method_ext_refl|].
     intros m. repeat split; try reflexivity; cbn.
-    + exists (PCons p PNil). reflexivity.
-    + destruct (m_response m); [exists PNil; rewrite papp_nil_r; reflexivity|exact I].
+    + apply props_ext_snoc.
+    + destruct (m_response m); [apply props_ext_refl|exact I].
   - constructor. cbn [sv_methods]. apply forall2_update_nth; [apply method_ext_refl|].
     intros m. repeat split; try reflexivity; cbn.
-    + exists PNil. rewrite papp_nil_r. reflexivity.
-    + destruct (m_response m); [exists (PCons p PNil); reflexivity|exact I].
+    + apply props_ext_refl.
+    + destruct (m_response m); [apply props_ext_snoc|exact I].
   - constructor. destruct t as [n ms|n rq rp|n en m|n en m]; constructor;
-      try (apply forall2_update_nth; [apply tmsg_ext_refl|]; intros x; split; [reflexivity|exists (PCons p PNil); reflexivity]);
+      try (apply forall2_update_nth; [apply tmsg_ext_refl|]; intros x; split; [reflexivity|apply props_ext_snoc]);
       try (apply forall2_refl; apply tmsg_ext_refl);
-      try (split; [reflexivity|exists (PCons p PNil); reflexivity]).
+      try (split; [reflexivity|apply props_ext_snoc]).
 Qed.
 
 Lemma update_edit_ext e l : forall k,
@@ -640,7 +903,7 @@ Qed.
 (* every C13 edit extends the source file in the sense of [file_src_ext] *)
 Theorem edit_file_ext e f : edit_ok e f -> file_src_ext f (edit_file e f).
 Proof.
-  intros Hok. destruct e as [fi k p|fi k o|fi d|fi k mi p|fi k mi p|fi k mi p]; cbn [edit_file].
+  intros Hok. destruct e as [fi k p|fi k o|fi d|fi k mi p|fi k mi p|fi k mi p|fi k rt path act]; cbn [edit_file].
   3: { repeat split; try reflexivity. exists (jf_elements f), [d]. split; [|reflexivity].
        apply forall2_refl. apply element_ext_refl. }
   all: repeat split; try reflexivity; eexists; exists []; (split; [|cbn [jf_elements]; rewrite app_nil_r; reflexivity]).
@@ -724,19 +987,54 @@ Qed.
 Section Exports.
 Variable camel : str -> str.
 
-Lemma exp_props_app pkg file path x y :
-  exp_props camel pkg file path (papp x y) = exp_props camel pkg file path x ++ exp_props camel pkg file path y.
-Proof. induction x as [|p r IH]; cbn; [reflexivity|]. rewrite IH, app_assoc. reflexivity. Qed.
+(* the inline types of an extended message include the old ones, under the same names *)
+Lemma exp_props_ext pkg file :
+  (forall f f', field_ext f f' -> forall path dflt,
+     incl (exp_field camel pkg file path dflt f) (exp_field camel pkg file path dflt f')) /\
+  (forall ps ps', props_ext ps ps' -> forall path,
+     incl (exp_props camel pkg file path ps) (exp_props camel pkg file path ps')).
+Proof.
+  apply ext_min.
+  - intros f path dflt. apply incl_refl.
+  - intros nm ps ps' _ IH path dflt. cbn [exp_field]. intros t [<-|Hin]; [left; reflexivity|right; eapply IH; exact Hin].
+  - intros nm ps ps' _ IH path dflt. cbn [exp_field]. intros t [<-|Hin]; [left; reflexivity|right; eapply IH; exact Hin].
+  - intros nm pfx opts extra _ path dflt. cbn [exp_field e_name]. apply incl_refl.
+  - intros it it' _ IH path dflt. cbn [exp_field]. apply IH.
+  - intros it it' _ IH path dflt. cbn [exp_field]. apply IH.
+  - intros extra path. cbn [exp_props]. intros t [].
+  - intros n rq op f f' r r' _ IHf _ IHr path. cbn [exp_props exp_property].
+    apply incl_app; [apply incl_appl; apply IHf|apply incl_appr; apply IHr].
+Qed.
+
+Lemma exp_nesteds_ext pkg file :
+  (forall n n', nested_ext n n' -> forall path,
+     incl (exp_nested camel pkg file path n) (exp_nested camel pkg file path n')) /\
+  (forall ns ns', nesteds_ext ns ns' -> forall path,
+     incl (exp_nesteds camel pkg file path ns) (exp_nesteds camel pkg file path ns')).
+Proof.
+  apply next_min.
+  - intros n path. apply incl_refl.
+  - intros nm ps ps' subs subs' Hps _ IH path. cbn [exp_nested].
+    intros t [<-|Hin]; [left; reflexivity|right].
+    apply in_app_or in Hin. apply in_or_app. destruct Hin as [Hin|Hin]; [left|right; eapply IH; exact Hin].
+    eapply (proj2 (exp_props_ext pkg file)); eassumption.
+  - intros nm ps ps' subs subs' Hps _ IH path. cbn [exp_nested].
+    intros t [<-|Hin]; [left; reflexivity|right].
+    apply in_app_or in Hin. apply in_or_app. destruct Hin as [Hin|Hin]; [left|right; eapply IH; exact Hin].
+    eapply (proj2 (exp_props_ext pkg file)); eassumption.
+  - intros nm pfx opts extra _ path. cbn [exp_nested e_name]. apply incl_refl.
+  - intros extra path. cbn [exp_nesteds]. intros t [].
+  - intros n n' r r' _ IHn _ IHr path. cbn [exp_nesteds].
+    apply incl_app; [apply incl_appl; apply IHn|apply incl_appr; apply IHr].
+Qed.
 
 Lemma exp_element_ext pkg file e e' :
   element_ext e e' -> incl (exp_element camel pkg file e) (exp_element camel pkg file e').
 Proof.
-  intros H. destruct H as [nm ps x subs|nm ps x subs|en|nm pfx opts x Hne|nm base ms ms' HF|t t' Ht];
-    cbn [exp_element exp_nested]; try apply incl_refl.
-  - rewrite exp_props_app. intros t [<-|Hin]; [left; reflexivity|right].
-    apply in_app_or in Hin. apply in_or_app. destruct Hin as [Hin|Hin]; [left; apply in_or_app; left; exact Hin|right; exact Hin].
-  - rewrite exp_props_app. intros t [<-|Hin]; [left; reflexivity|right].
-    apply in_app_or in Hin. apply in_or_app. destruct Hin as [Hin|Hin]; [left; apply in_or_app; left; exact Hin|right; exact Hin].
+  intros H. destruct H as [nm ps ps' subs subs' Hps Hs|nm ps ps' subs subs' Hps Hs|en|nm pfx opts x Hne|nm base ms ms' HF|t t' Ht];
+    cbn [exp_element]; try apply incl_refl.
+  - apply (proj1 (exp_nesteds_ext pkg file)). constructor; assumption.
+  - apply (proj1 (exp_nesteds_ext pkg file)). constructor; assumption.
 Qed.
 
 Lemma exp_file_ext f f' :
